@@ -22,7 +22,7 @@ import vlib
 from vlib import qstr
 
 NS = 'xmlns="http://www.w3.org/2000/svg" xmlns:xlink="http://www.w3.org/1999/xlink"'
-IMPORTS = ['Model.F32', 'Gen.PixelTables', 'Model.Pixel', 'Model.PixelChk']
+IMPORTS = ['Model.F32', 'Gen.PixelTables', 'Model.Pixel', 'Model.PixelChk', 'Model.FilterWire']
 GEO_IMPORTS = ['Model.Base', 'Model.GeomPrims', 'Model.Corr', 'Gen.LeafFit', 'Model.FilterGeom']
 
 
@@ -182,6 +182,55 @@ def gen_apply_cases(rng, n_rand):
 
 
 IDENT = "1 0 0 0 0  0 1 0 0 0  0 0 1 0 0  0 0 0 1 0"
+
+
+def gen_wire_case(rng):
+    """a chain of per-pixel primitives with reused result names, implicit inputs, unknown references and mixed colour spaces,
+    with the Model/FilterWire.v term that the real filter::apply must agree with on every pixel"""
+    names = {'a': 1, 'b': 2}
+    xml, coq = '', []
+    defined = []         # tokens of earlier steps, in order
+    for j in range(3 + rng.below(4)):
+        nm = rng.choice(['a', 'b', 'a', None])
+        tok = names[nm] if nm else 100 + j
+        cs = rng.choice(['sRGB', 'linearRGB'])
+
+        def inp():
+            k = rng.below(8)
+            if k == 0:
+                return 'SourceGraphic', 'WSource'
+            if k == 1:
+                return 'SourceAlpha', 'WSourceAlpha'
+            if k <= 4:
+                n = rng.choice(['a', 'b', 'zz'])
+                if n in names and names[n] in defined:
+                    return n, '(WRef %d%%N)' % names[n]
+                return n, ('(WRef %d%%N)' % defined[-1] if defined else 'WSource')     # unknown reference: previous result, else SourceGraphic
+            return None, ('(WRef %d%%N)' % defined[-1] if defined else 'WSource')         # no `in`: previous result, else SourceGraphic
+        attr = ' color-interpolation-filters="%s"' % cs + (' result="%s"' % nm if nm else '')
+        k = rng.below(5)
+        if k == 0:
+            i, ci = inp()
+            xml += ('<feOffset dx="0" dy="0"%s%s/>' if rng.below(2) else '<feGaussianBlur stdDeviation="0"%s%s/>') % (' in="%s"' % i if i else '', attr)
+            kind = "WOffset0 %s" % ci
+        elif k == 1:
+            i, ci = inp()
+            el, c, _ = gen_cm(rng)
+            xml += el % ((' in="%s"' % i if i else '') + attr)
+            kind = "WColorMatrix %s %s" % (c, ci)
+        elif k == 2:
+            i, ci = inp()
+            el, c, _ = gen_ct(rng)
+            xml += el % ((' in="%s"' % i if i else '') + attr)
+            kind = "WTransfer %s %s" % (c, ci)
+        else:
+            ins = [inp() for _ in range(1 + rng.below(3))]
+            xml += '<feMerge%s>%s</feMerge>' % (attr, "".join('<feMergeNode%s/>' % (' in="%s"' % i if i else '') for i, _ in ins))
+            kind = "WMerge [%s]" % "; ".join(ci for _, ci in ins)
+        coq.append("{| w_kind := %s; w_cs := %s; w_name := %d%%N |}" % (kind, 'CsSRGB' if cs == 'sRGB' else 'CsLinear', tok))
+        defined.append(tok)
+    return dict(kind='wire', doc=apply_doc(12, 12, xml, 'sRGB'), src='rand:%d:12:12' % rng.below(1 << 30), out='rgba',
+                model="(run_filter [%s])" % ";\n ".join(coq))
 
 
 def gen_pair_cases(rng, alphas):
@@ -437,7 +486,7 @@ def gen_filter(rng, fid, bbox, kinds=None, force_kind=None):
     return '<filter id="%s"%s>%s</filter>' % (fid, attrs, prims), region, used
 
 
-ID_PRIMS = ['offset0', 'blur0', 'merge1', 'matrix', 'transfer', 'over-nothing', 'saturate1']
+ID_PRIMS = ['offset0', 'blur0', 'merge1', 'matrix', 'transfer', 'over-nothing', 'saturate1', 'shadow', 'shadow-implicit', 'mixed-cs', 'mixed-cs2']
 
 
 def gen_identity_filter(rng, fid, bbox, cut):
@@ -467,6 +516,21 @@ def gen_identity_filter(rng, fid, bbox, cut):
             fs = "".join('<feFunc%s %s/>' % (c, rng.choice(['type="identity"', 'type="linear" slope="1" intercept="0"', 'type="table" tableValues="0 1"',
                                                             'type="table" tableValues="0 0.25 0.5 0.75 1"', 'type="linear"'])) for c in 'RGBA' if rng.below(4))
             prims += '<feComponentTransfer>%s</feComponentTransfer>' % fs
+        elif k == 'shadow':
+            # a result name used twice: the later reference must see the newer result (get_input looks up the LAST one)
+            prims += ('<feFlood flood-color="%s" result="s%d"/><feOffset in="SourceGraphic" dx="0" dy="0" result="s%d"/>'
+                      '<feMerge><feMergeNode in="s%d"/></feMerge>' % (rng.choice(COLORS), j, j, j))
+        elif k == 'shadow-implicit':
+            prims += ('<feColorMatrix type="luminanceToAlpha" in="SourceGraphic" result="s%d"/><feGaussianBlur in="SourceGraphic" stdDeviation="0" result="s%d"/>'
+                      '<feOffset dx="0" dy="0"/>' % (j, j))
+        elif k == 'mixed-cs':
+            # one named sRGB result read first by a linearRGB merge (dead end), then again in sRGB: reading must not rewrite the stored result
+            prims += ('<feOffset in="SourceGraphic" dx="0" dy="0" result="m%d"/><feMerge color-interpolation-filters="linearRGB" result="dead%d"><feMergeNode in="m%d"/></feMerge>'
+                      '<feColorMatrix type="matrix" values="%s" in="m%d"/>' % (j, j, j, IDENT, j))
+        elif k == 'mixed-cs2':
+            prims += ('<feMerge result="m%d"><feMergeNode in="SourceGraphic"/></feMerge><feComponentTransfer color-interpolation-filters="linearRGB" in="m%d" result="dead%d">'
+                      '<feFuncR type="linear" slope="0.5"/></feComponentTransfer><feColorMatrix color-interpolation-filters="linearRGB" type="saturate" values="0.3" in="m%d" result="dead2%d"/>'
+                      '<feMerge><feMergeNode in="m%d"/></feMerge>' % (j, j, j, j, j, j))
         else:
             prims += ('<feOffset dx="0" dy="0" result="keep%d"/><feFlood flood-opacity="0" result="none%d"/>'
                       '<feComposite in="keep%d" in2="none%d" operator="over"/>' % (j, j, j, j))
@@ -656,7 +720,7 @@ def run(ctx):
 
     model_ok = 'Model/Pixel.v' not in res['failed'] and 'Gen/PixelTables.v' not in res['failed'] and 'Model/F32.v' not in res['failed']
     if model_ok:
-        ok, log, failed = ctx.coq_build(['Model/PixelChk.v', 'Model/FilterGeom.v', 'Model/Corr.v'])
+        ok, log, failed = ctx.coq_build(['Model/PixelChk.v', 'Model/FilterGeom.v', 'Model/Corr.v', 'Model/FilterWire.v'])
         model_ok = ok
         if not ok:
             ctx.log("model files do not compile: %s\n%s" % (failed, log[-1500:]))
@@ -720,7 +784,7 @@ def run(ctx):
     else:
         # the leaf kernels are compared on all 65 536 pairs above; the composed pipelines on 72 alpha rows x 256 colours
         alphas = sorted(set(list(range(0, 256, 4)) + [1, 2, 3, 127, 129, 253, 254, 255]))
-    acases = gen_pair_cases(rng, alphas) + gen_apply_cases(rng, 30 if quick else 240)
+    acases = gen_pair_cases(rng, alphas) + gen_apply_cases(rng, 30 if quick else 240) + [gen_wire_case(rng) for _ in range(18 if quick else 150)]
     aouts = ctx.rvh_batch(binp, 'c16-apply', ["-\t%s\t1,0,0,1,0,0\t%s\t%s" % (c['doc'], c['src'], c['out']) for c in acases]) if model_ok else []
     groups = {}
     for i, (c, o) in enumerate(zip(acases, aouts)):
@@ -736,7 +800,7 @@ def run(ctx):
             corr_violations += 1
             continue
         ctx.note_case("apply|" + c['kind'] + c['doc'] + c['src'])
-        g = 'pairs%d' % i if c['out'] == 'ra' else 'rand%d' % (i % 6)
+        g = 'pairs%d' % i if c['out'] == 'ra' else ('wire%d' % (i % 3) if c['kind'] == 'wire' else 'rand%d' % (i % 6))
         groups.setdefault(g, []).append(i)
     for g, idxs in groups.items():
         items = []
